@@ -122,13 +122,15 @@ theorem cache_inv (hl : ParserLaws P) (c0 : Cache) (reqs : List Req) (evs : List
   rw [World.run_reqs] at h
   simpa [List.map_map, Function.comp_def] using h
 
-/-- … and with the whole-buffer parser: the body of a `GoodEntry` parses (`parseOk`), by C10's
-    chunk independence. -/
+/-- … and with the whole-buffer parser: the body of a `GoodEntry` ends in a line feed and — on
+    C10's domain of chunk independence (all lines shorter than 80 KiB) — parses (`parseOk`). -/
 theorem goodEntry_parses (hl : ParserLaws P) {reqs : List Req} {p : Path} {n : Node}
     (h : GoodEntry P reqs p n) :
-    ∃ body u, n = .file (body ++ trailer u) ∧ P.parseOk body = true ∧ EndsNl body := by
+    ∃ body u, n = .file (body ++ trailer u) ∧ EndsNl body ∧
+      (P.shortLines body → P.parseOk body = true) := by
   obtain ⟨rx, u, t, hs, hends, hn, _⟩ := h
-  exact ⟨bodyOf rx, u, hn, by simp [ParserModel.parseOk, hl.chunk_independent rx _ t hs], hends⟩
+  exact ⟨bodyOf rx, u, hn, hends, fun hsl => by
+    simp [ParserModel.parseOk, hl.chunk_independent rx _ t hsl hs]⟩
 
 /-! ### no_stray_temp -/
 
@@ -331,14 +333,15 @@ def Result.sym (P : ParserModel) : Result → Option P.Sym
     has put an entry `e` at its cache path (the name was free before). Then a later call for the
     same module with NO server configured finds `e`, and parsing `e` gives exactly the table the
     download returned, URL included. Uses `info_url_trailer` (for URLs as `Url::to_string` writes
-    them) and `chunk_independent`.
+    them) and `chunk_independent` (hence `hshort`: all lines of the body shorter than 80 KiB, the
+    domain on which C10 proves that the streaming parse and the parse of the file agree).
 
     That the committed body ends in a line feed — which `info_url_trailer` needs — is established
     by the commit step itself (`ends_with_newline`, /repo 4002240). Before that repair the real
     parser's `Ok` for a body with an over-long unterminated last line led to an entry whose note
     was glued to that line and lost on re-reading; this check found it (corpus case `+L170000`). -/
 theorem cached_equals_original (hl : ParserLaws P) (c : Cache) (req : Req) (es : List Ev)
-    (rx : List Bytes) (u : Url) (e : Bytes) (hu : UrlClean u)
+    (rx : List Bytes) (u : Url) (e : Bytes) (hu : UrlClean u) (hshort : P.shortLines (bodyOf rx))
     (hfree : c req.path = none)
     (hrun : (runTask (P := P) c req .start es).2 = .done (.downloaded rx u))
     (hentry : (runTask (P := P) c req .start es).1 req.path = some (.file e)) :
@@ -384,7 +387,7 @@ theorem cached_equals_original (hl : ParserLaws P) (c : Cache) (req : Req) (es :
     rcases downloaded_is_complete hl c req .start trivial es rx u hrun with h | ⟨_, h⟩
     · cases h
     · exact h
-  have hparse : P.parse (bodyOf rx) = some t := hl.chunk_independent rx _ t hs
+  have hparse : P.parse (bodyOf rx) = some t := hl.chunk_independent rx _ t hshort hs
   refine ⟨he, ?_, ⟨t, by simp [Result.sym, hs]⟩, ?_⟩
   · show (match lookupLocal c' later with
         | some b => (c', Phase.done (Result.localFile b))
